@@ -337,7 +337,7 @@ func (c *Ctx) rawSchema(depth int, pos string) *Schema {
 	case "prim":
 		pr := c.prim("prim")
 		// (C06 only) a date-time property / item may carry a Go layout of its own
-		if c.JSONTimeLayouts {
+		if c.JSONTimeLayouts && (pos == "property" || pos == "items") {
 			pr = c.maybeLayout(pr, "prim")
 		}
 		s = pr.Schema()
